@@ -46,10 +46,11 @@
               the entries of a written message are run-length encoded: count entry
    5  presence batching through the hooked functions:  5 max_message n { cidspec presence }*n
       trace:  5 k { <ids> message_len <decoded: <cid bytes> type> <the message's bytes> }*k
-   6  request batching through the hooked functions (the loop of send_request):
+   6  the real send_request on a substream whose codec has the given message size limit:
                   6 max_message n { cidspec wantType }*n
-      trace:  6 k { <ids> message_len <decoded entries: <cid bytes> priority cancel wantType
-                    sendDontHave> full <the message's bytes> }*k
+      trace:  6 1 message_len <decoded entries: <cid bytes> priority cancel wantType
+                  sendDontHave> full <the message's bytes>     (Ok: one frame was written)
+              6 0 bytes_written                                 (Err: refused by the codec)
    7  blocks_message on blocks given with their data:  7 n { cidspec <data bytes> }*n
       trace:  7 <the message's bytes> (7 0 when there is no message: n = 0)
    8  end to end (the two nodes of kind 3): a send_request, then a send_response of presences
@@ -398,29 +399,24 @@ Definition enc_pbatch (b : list spres) : list N :=
 Definition run_pres (mm : N) (l : list spres) : list N :=
   enc_list enc_pbatch (all_batches spres (fun _ => 0) sp_elen blk_mlen 0 mm l).
 
-(* ---- kind 6: request batching ---- *)
-
-Definition iw_elen (x : N * (cid * want_type)) : N := sw_elen (snd x).
+(* ---- kind 6: send_request — one message, refused when longer than the limit ---- *)
 
 Definition enc_want_entry (x : N * (cid * want_type)) : list N :=
   enc_bytes (cid_to_bytes (fst (snd x))) ++ [1; 0; want_code (snd (snd x)); 0].
 
-Definition enc_wbatch (b : list (N * (cid * want_type))) : list N :=
-  enc_list (fun x => [fst x]) b ++
-  [message_len (N * (cid * want_type)) iw_elen req_mlen b] ++
-  enc_list enc_want_entry b ++ [0] ++ enc_bytes (request_bytes (map snd b)).
-
 Definition run_wants (mm : N) (l : list (N * (cid * want_type))) : list N :=
-  enc_list enc_wbatch
-    (request_rounds (N * (cid * want_type)) (fun _ => 0) iw_elen req_mlen 0 mm (S (length l)) l).
+  let cids := map snd l in
+  if mm <? request_len cids then [0; 0]
+  else [1; request_len cids] ++ enc_list enc_want_entry l ++ [0] ++ enc_bytes (request_bytes cids).
 
 (* ---- kind 8: what the remote user is told, message by message ---- *)
 
 Definition run_mixed (ws : list (N * (cid * want_type))) (ps : list spres) (bs : list sblock) : list N :=
-  let reqs := request_rounds (N * (cid * want_type)) (fun _ => 0) iw_elen req_mlen 0 MM (S (length ws)) ws in
   let evs :=
-    flat_map (fun b : list (N * (cid * want_type)) =>
-                match b with [] => [] | _ => [1 :: enc_list (fun x => [fst x]) b] end) reqs ++
+    (* the request is one message; an empty wantlist is not reported (a request above the limit
+       would not be sent at all: not generated in this stream, marked 99) *)
+    (if MM <? request_len (map snd ws) then [[99]]
+     else match ws with [] => [] | _ => [1 :: enc_list (fun x : N * (cid * want_type) => [fst x]) ws] end) ++
     map (fun b => 2 :: enc_list (fun x => [sp_id x]) b) (send_response_presences MM ps) ++
     map (fun b => 3 :: enc_list (fun x => [sb_id x]) b) (send_response_blocks MB MM bs) in
   N.of_nat (length evs) :: concat evs.
@@ -781,14 +777,6 @@ Definition pbatch_ok (mm : N) (l : list spres) (b : opbatch) : bool :=
   (N.of_nat (length (opb_raw b)) =? opb_len b) &&
   nlist_eqb (opb_raw b) (presences_bytes (pick l (opb_ids b))).
 
-Record owbatch := mkOWB { owb_ids : list N; owb_len : N; owb_entries : list wl_entry; owb_full : N;
-                          owb_raw : list N }.
-
-Definition p_owbatch : parser owbatch :=
-  let* ids := plist pN in let* len := pN in let* es := plist p_wl_entry in let* full := pN in
-  let* raw := plist pN in
-  pret (mkOWB ids len es full raw).
-
 Fixpoint wentries_ok (l : list (N * (cid * want_type))) (ids : list N) (es : list wl_entry) : bool :=
   match ids, es with
   | [], [] => true
@@ -803,13 +791,23 @@ Fixpoint wentries_ok (l : list (N * (cid * want_type))) (ids : list N) (es : lis
   | _, _ => false
   end.
 
-(* a request message: within the limit when it carries wants, never marked `full`, and it
-   decodes to exactly the wants of the batch, in order *)
-Definition wbatch_ok (mm : N) (l : list (N * (cid * want_type))) (b : owbatch) : bool :=
-  (match owb_ids b with [] => true | _ => (1 <=? owb_len b) && (owb_len b <=? mm) end) &&
-  (owb_full b =? 0) && wentries_ok l (owb_ids b) (owb_entries b) &&
-  (N.of_nat (length (owb_raw b)) =? owb_len b) &&
-  nlist_eqb (owb_raw b) (request_bytes (map snd (pick l (owb_ids b)))).
+(* send_request: Ok means one message went out — within the limit, not marked `full`, decoding to
+   exactly the wants, in order, and being the canonical encoding byte for byte; Err is justified
+   only by a message longer than the limit, and then nothing was written *)
+Definition wants_ok (mm : N) (l : list (N * (cid * want_type))) (trace : list N) : bool :=
+  let cids := map snd l in
+  match trace with
+  | [0; w] => (w =? 0) && (mm <? request_len cids)
+  | 1 :: len :: body =>
+      match pall (let* es := plist p_wl_entry in let* full := pN in let* raw := plist pN in
+                  pret (es, full, raw)) body with
+      | Some (es, full, raw) =>
+          (len <=? mm) && (full =? 0) && wentries_ok l (map fst l) es &&
+          (N.of_nat (length raw) =? len) && nlist_eqb raw (request_bytes cids)
+      | None => false
+      end
+  | _ => false
+  end.
 
 Definition prop_ok (case trace : list N) : bool :=
   match decode_case case, trace with
@@ -855,14 +853,7 @@ Definition prop_ok (case trace : list N) : bool :=
           forallb (pbatch_ok mm l) obs
       | None => false
       end
-  | Some (CWant mm l), 6 :: body =>
-      match pall (plist p_owbatch) body with
-      | Some obs =>
-          nlist_eqb (concat (map owb_ids obs))
-                    (map fst (filter (fits (N * (cid * want_type)) (fun _ => 0) iw_elen req_mlen 0 mm) l)) &&
-          forallb (wbatch_ok mm l) obs
-      | None => false
-      end
+  | Some (CWant mm l), 6 :: body => wants_ok mm l body
   | Some (CBlocksMsg l), 7 :: body =>
       match pall (plist pN) body with
       | Some raw =>
@@ -883,9 +874,10 @@ Definition prop_ok (case trace : list N) : bool :=
                                          negb (match snd e with [] => true | _ => false end)) evs &&
           nlist_eqb (map fst evs)
                     (map (fun _ => 1) (of_tag 1) ++ map (fun _ => 2) (of_tag 2) ++ map (fun _ => 3) (of_tag 3)) &&
-          (* every want, presence and block that fits a message is reported once and in order *)
-          nlist_eqb (concat (of_tag 1))
-                    (map fst (filter (fits (N * (cid * want_type)) (fun _ => 0) iw_elen req_mlen 0 MM) ws)) &&
+          (* the request (within the limit in this stream) is reported whole, by one event; every
+             presence and block that fits a message is reported once and in order *)
+          (request_len (map snd ws) <=? MM) &&
+          list_eqb nlist_eqb (of_tag 1) (match ws with [] => [] | _ => [map fst ws] end) &&
           nlist_eqb (concat (of_tag 2))
                     (map sp_id (filter (fits spres (fun _ => 0) sp_elen blk_mlen 0 MM) ps)) &&
           nlist_eqb (concat (of_tag 3)) (fit_ids MB MM bs) &&
